@@ -8,3 +8,4 @@ import GoImap.Props.C18
 #print axioms GoImap.C18.charset_parts
 #print axioms GoImap.C18.legacy_modseq_counterexample
 #print axioms GoImap.C18.legacy_leak_counterexample
+#print axioms GoImap.C18.legacy_stale_request_counterexample
